@@ -109,6 +109,25 @@ def replay(chk, case):
         bad("vecB", "calc_vecB() differs from the exact offset: %s vs %s" % (b, b_exp))
     if qt.num_variables != case["numvar"]:
         bad("num_variables", "num_variables=%d, specification %d" % (qt.num_variables, case["numvar"]))
+    # the per-schedule / per-outcome accessors of the same model (used by the CVXPY losses): row (schedule s, outcome x) of (A, b)
+    try:
+        sizes_ = row_sizes(tomo)
+        offs_ = np.cumsum([0] + sizes_)
+        for s_, m_ in enumerate(sizes_):
+            rows = slice(offs_[s_], offs_[s_ + 1])
+            if qt.num_outcomes(s_) != m_:
+                bad("num_outcomes", "num_outcomes(%d)=%d, specification %d" % (s_, qt.num_outcomes(s_), m_))
+                break
+            A1 = np.asarray(qt.get_coeffs_1st_mat(s_))
+            b0 = np.asarray(qt.get_coeffs_0th_vec(s_))
+            ok = A1.shape == A_exp[rows].shape and coords.close(A1, A_exp[rows]) and b0.shape == b_exp[rows].shape and coords.close(b0, b_exp[rows])
+            for x_ in range(m_) if ok else ():
+                ok = ok and coords.close(np.asarray(qt.get_coeffs_1st(s_, x_)), A_exp[offs_[s_] + x_]) and abs(float(qt.get_coeffs_0th(s_, x_)) - b_exp[offs_[s_] + x_]) < 1e-12
+            if not ok:
+                bad("coeffs_accessors", "get_coeffs_1st_mat / get_coeffs_0th_vec / get_coeffs_1st / get_coeffs_0th of schedule %d are not the rows of the exact forward model for that schedule" % s_)
+                break
+    except Exception as e:
+        bad("coeffs_accessors:exception", "%r" % e)
     # informational completeness <=> full column rank (exact rational rank of the specification)
     try:
         full = bool(qt.is_fullrank_matA())
